@@ -3,6 +3,7 @@ package main
 // Evaluation of contract expressions to SMT terms.
 
 import (
+	"go/constant"
 	"fmt"
 	"go/types"
 	"golang.org/x/tools/go/ssa"
@@ -161,6 +162,12 @@ func (m *Machine) ev(env *Env, x *Expr) CV {
 			if g, ok := mem.(*ssa.Global); ok {
 				pt := g.Type().(*types.Pointer).Elem()
 				return CV{V: m.load(env.cur, m.globalPtr(g), pt), Signed: isSigned(pt), Typ: pt}
+			}
+			// a named integer constant of the package: its value in the tree under verification
+			if nc, ok := mem.(*ssa.NamedConst); ok && nc.Value != nil && nc.Value.Value != nil && nc.Value.Value.Kind() == constant.Int {
+				if v, exact := constant.Int64Val(nc.Value.Value); exact {
+					return CV{V: BVLitI(v, 64), Signed: true}
+				}
 			}
 		}
 		m.everr("unknown identifier %s", x.Name)
